@@ -113,7 +113,7 @@ func handshakeValidation(p *Prog, r *Report, R string) {
 	} else {
 		H := headerLocal(hs.fn)
 		dom := map[string][]int64{H + ".Zero": {0, 1}, H + ".S": {83, 84}, H + ".P": {80, 81}, H + ".Version": {0, 1}, H + ".Reserved": {0, 1}, H + ".Proto": {1, 2}, "recv.proto.Peer": {1, 2}}
-		res := ComparePred(succ[0].In.Block(), dom, []string{"binary.Write(recv.c,encoding/binary.BigEndian," + H + ") == nil", "binary.Read(" + hsReader(hs.Ev("call", "binary.Read")) + ",encoding/binary.BigEndian," + H + ") == nil"}, func(env map[string]int64) bool {
+		res := ComparePred(predBlock(succ[0]), dom, []string{"binary.Write(recv.c,encoding/binary.BigEndian," + H + ") == nil", "binary.Read(" + hsReader(hs.Ev("call", "binary.Read")) + ",encoding/binary.BigEndian," + H + ") == nil"}, func(env map[string]int64) bool {
 			return env[H+".Zero"] == 0 && env[H+".S"] == 83 && env[H+".P"] == 80 && env[H+".Version"] == 0 && env[H+".Reserved"] == 0 && env[H+".Proto"] == env["recv.proto.Peer"]
 		})
 		switch {
@@ -421,7 +421,7 @@ func wsRules(p *Prog, r *Report, R string) {
 		r.Check(okc, R, "ws.Send/header-then-body", ap.Pos(p), "payload = Header‖Body", "the websocket payload is not Header followed by Body: "+argsOf(ap))
 		if len(ap) == 2 {
 			dom := map[string][]int64{"len(arg1.Header)": {0, 1, 4}, "len(arg1.Body)": {0, 1, 5}}
-			res := ComparePred(ap[0].In.Block(), dom, nil, func(env map[string]int64) bool { return env["len(arg1.Header)"] > 0 })
+			res := ComparePred(predBlock(ap[0]), dom, nil, func(env map[string]int64) bool { return env["len(arg1.Header)"] > 0 })
 			r.Check(res.OK && res.Undec == "", R, "ws.Send/header-included-iff-nonempty", ap.Pos(p), "the header is included whenever it is non-empty", "the header is dropped for some messages with a non-empty header: "+res.Counter+res.Undec)
 		}
 		// the frame payload is either that concatenation or Body alone
